@@ -302,7 +302,7 @@ Cause(g, e, r, A, O, h0) ==
      THEN (IF g = "C12_Mask" /\ r.mask \in {1, 2} /\ ~r.mbr /\ e.prl = "rm"
            THEN "KF_PRLRouterFirst"       \* the client's parameter request list puts the router before the mask
            ELSE "none")
-     ELSE IF conflict /\ a # NoA /\ (\/ (e.kind = "discover" /\ O[k].offer = a /\ O[k].old /\ AIp(A, k) # a)
+     ELSE IF conflict /\ a # NoA /\ (\/ (e.kind = "discover" /\ O[k].offer = a /\ O[k].old /\ AIp(A, k) # a /\ O[k].last # a)
                                      \/ (e.kind = "discover" /\ O[k].offer # a /\ a \in O[k].offd /\ AIp(A, k) # a /\ O[k].last # a)
                                      \/ a \in O[k].stl
                                      \/ \E j \in Holders(e, r, A) : a \in O[j].stl)
@@ -354,7 +354,7 @@ PropMsg(e, out, h0, cap) ==
                       dup == IF r.t = "offer" /\ a # NoA /\ (~had \/ (o2.offer = a /\ o2.old)) /\ (\E j \in CIDs \ {k} : O2[j].offer = a /\ ~O2[j].old)
                              THEN o2.dup \cup {a} ELSE o2.dup
                       \* an expired offer repeated although the address is meanwhile acknowledged to / tracked for another
-                      stl == IF e.kind = "discover" /\ a # NoA /\ o2.offer = a /\ o2.old /\ AIp(A2, k) # a
+                      stl == IF e.kind = "discover" /\ a # NoA /\ o2.offer = a /\ o2.old /\ AIp(A2, k) # a /\ o2.last # a
                                 /\ (Holders(e, r, A2) # {} \/ HostAt(h0, a) \notin {NoMac, e.m})
                              THEN o2.stl \cup {a}
                              ELSE IF e.kind = "discover" /\ a # NoA /\ o2.offer # a /\ a \in o2.offd /\ AIp(A2, k) # a /\ o2.last # a
